@@ -342,9 +342,7 @@ func (s *Session) parseMailFrom(args string) (string, error) {
 		return "", fmt.Errorf("expected FROM")
 	}
 
-	args = strings.TrimPrefix(args, "FROM:")
-	args = strings.TrimPrefix(args, "from:")
-	args = strings.TrimSpace(args)
+	args = strings.TrimSpace(args[len("FROM:"):])
 
 	// Remove angle brackets if present
 	args = strings.TrimPrefix(args, "<")
@@ -368,9 +366,12 @@ func (s *Session) parseRcptTo(args string) (string, error) {
 		return "", fmt.Errorf("expected TO")
 	}
 
-	args = strings.TrimPrefix(args, "TO:")
-	args = strings.TrimPrefix(args, "to:")
-	args = strings.TrimSpace(args)
+	args = strings.TrimSpace(args[len("TO:"):])
+
+	// Drop ESMTP parameters following the address (e.g. NOTIFY=NEVER)
+	if parts := strings.Fields(args); len(parts) > 0 {
+		args = parts[0]
+	}
 
 	// Remove angle brackets if present
 	args = strings.TrimPrefix(args, "<")
